@@ -834,13 +834,23 @@ pub fn generate(seed: u64, index: u64, max_steps: usize, faults: usize) -> Histo
                 _ => (Sever::Clean, true, true),
             };
             let list_fail = if fails {
-                // prefer to remove a server the failed attempt has already handed out on page 0
-                let first_offered = g.offered().into_iter().min();
-                let then = match first_offered {
-                    Some(n) if g.rng.chance(2, 3) => vec![g.ev_delete(&n)],
-                    _ => g.change(7).1,
-                };
+                // remove (or demote) a server the failed attempt has already handed out on its
+                // first page, so that the successful retry differs from what was handed out before
                 let at_page = if g.cur.len() > 2 { 1 } else { 0 };
+                let offered = g.offered();
+                let handed_out: Vec<String> = g
+                    .cur
+                    .keys()
+                    .take(if at_page == 0 { 0 } else { 2 })
+                    .filter(|n| offered.contains(*n))
+                    .cloned()
+                    .collect();
+                let then = if handed_out.is_empty() {
+                    g.change(7).1
+                } else {
+                    let n = g.rng.pick(&handed_out).clone();
+                    if g.rng.chance(3, 4) { vec![g.ev_delete(&n)] } else { vec![g.ev_to_not_ready(&n, false)] }
+                };
                 Some((at_page, then))
             } else {
                 None
